@@ -1039,6 +1039,9 @@ func describeIn(in *In) string {
 		if in.SetSz {
 			s += fmt.Sprintf(" size=%d", in.Size)
 		}
+		if in.How != 0 {
+			s += fmt.Sprintf(" guard=%d", in.How)
+		}
 		if in.SetTm || in.SetAt {
 			s += " atime"
 		}
